@@ -39,6 +39,7 @@ type cval struct {
 
 const prelude = `tr := {|tag, v| tag.p; v}
 IB := Int.bear
+FBz := Float.bear
 `
 
 func pool(thorough bool) []cval {
@@ -49,7 +50,7 @@ func pool(thorough bool) []cval {
 		{Src: "(1:3)"}, {Src: "(nil:nil)"}, {Src: "{|x| x}"}, {Src: "m{|x| x}"}, {Src: "<{|x| yield x}>"},
 		{Src: "Int"}, {Src: "Float"}, {Src: "Str"}, {Src: "Arr"}, {Src: "Obj"}, {Src: "Map"}, {Src: "Nil"}, {Src: "Range"}, {Src: "Func"}, {Src: "Err"},
 		{Src: "BaseObj", NoBang: true},
-		{Src: "IB.new(0)"}, {Src: "IB.new(3)"}, {Src: `Str.bear.new("")`}, {Src: `Str.bear.new("x")`}, {Src: "Arr.bear.new([])"}, {Src: "{}.bear"}, {Src: "{a: 1}.bear"}, {Src: "{}.bear({b: 1})"},
+		{Src: "IB.new(3)"}, {Src: `Str.bear.new("x")`}, {Src: "{}.bear"}, {Src: "{a: 1}.bear"}, {Src: "{}.bear({b: 1})"},
 		{Src: "{B: true}"}, {Src: "{B: false}"}, {Src: "{B: 1}"}, {Src: "{B: nil}"}, {Src: "{B: m{true}}"}, {Src: "{B: m{false}}"}, {Src: "{B: m{1}}"}, {Src: "{B: m{.x}, x: true}"}, {Src: "{B: m{.x}, x: 0}"},
 		// typed descendants whose own B disagrees with the built-in rule of their type
 		{Src: "Int.bear({B: m{self > 10}}).new(5)"}, {Src: "Int.bear({B: m{self > 10}}).new(50)"}, {Src: "Int.bear({B: m{self < 1}}).new(0)"}, {Src: "Int.bear({B: true}).new(0)"},
@@ -59,11 +60,15 @@ func pool(thorough bool) []cval {
 		{Src: "{_p: 1}", NonZero: true}, {Src: `{"user-id": 5}`, NonZero: true}, {Src: "{'+: 1}", NonZero: true}, {Src: "{}.bear({_x: 2})", NonZero: true},
 		{Src: "%{nil: nil}", NonZero: true}, {Src: "%{[]: 0}", NonZero: true}, {Src: "[[]]", NonZero: true}, {Src: "[false]", NonZero: true}, {Src: `" "`, NonZero: true}, {Src: `"0"`, NonZero: true},
 		{Src: "0.5", NonZero: true}, {Src: "(-0.5)", NonZero: true}, {Src: `"inf".F`, NonZero: true},
+		// zero values that are not the canonical objects: results of arithmetic on descendants / booleans, typed zero values
+		{Src: "(true - 1)", Zero: true}, {Src: "(false * 7)", Zero: true}, {Src: "(IB.new(3) - 3)", Zero: true}, {Src: "(5.bear({}) - 5)", Zero: true}, {Src: "IB.new(0)", Zero: true},
+		{Src: "Float.bear.new(0.0)", Zero: true}, {Src: "(FBz.new(1.5) - 1.5)", Zero: true}, {Src: `Str.bear.new("")`, Zero: true}, {Src: `(Str.bear.new("a") * 0)`, Zero: true},
+		{Src: "Arr.bear.new([])", Zero: true}, {Src: "[1][1:]", Zero: true}, {Src: `"a"[1:]`, Zero: true}, {Src: "{a: 1}.del('a)", Zero: true}, {Src: "(1 - 1)", Zero: true}, {Src: "(0.5 - 0.5)", Zero: true},
 		{Src: "1.try"}, {Src: "nil.try"}, {Src: "1.try./(0)"}, {Src: "1.try./(0).err"}, {Src: `"nan".F`},
 	}
 	if thorough {
 		p = append(p, cval{Src: "(-0.0)"},
-			cval{Src: "(0:0)"}, cval{Src: "Float.bear.new(0.0)"}, cval{Src: "Float.bear.new(2.0)"}, cval{Src: "{B: true}.bear"}, cval{Src: "{B: false}.bear({x: 1})"},
+			cval{Src: "(0:0)"}, cval{Src: "Float.bear.new(2.0)"}, cval{Src: "{B: true}.bear"}, cval{Src: "{B: false}.bear({x: 1})"},
 			cval{Src: "Kernel"}, cval{Src: "Either"}, cval{Src: "Iter"}, cval{Src: "Comparable"}, cval{Src: "JSON"}, cval{Src: "Diamond"}, cval{Src: "Num"},
 			cval{Src: "9223372036854775807"}, cval{Src: "{B: m{[]}}"}, cval{Src: `{B: "true"}`}, cval{Src: "true.bear"}, cval{Src: "false.bear"})
 	}
